@@ -37,7 +37,7 @@ ASSUMPTIONS = [
 ]
 REQUIRED_CELLS = {'quick': ['op:write', 'op:total', 'op:T', 'op:P', 'op:phase', 'op:phases', 'op:link', 'op:unlink',
                             'op:copy_like', 'op:reset_thermo', 'op:proxy', 'op:flow_proxy', 'op:dim_error',
-                            'op:read_key', 'write:view=mass', 'write:view=vol', 'write:via=sub',
+                            'op:read_key', 'op:get_property', 'op:assign', 'assign:vol-different-conditions', 'write:view=mass', 'write:view=vol', 'write:via=sub',
                             'phases:S->M', 'phases:M->M', 'phases:M->S', 'link:full', 'link:partial'],
                   'thorough': []}
 
@@ -341,12 +341,12 @@ class Run:
         if single:
             accs = {'item': ['data', 'indexer', 'set_flow', 'set_data'],
                     'some': ['indexer', 'set_flow', 'set_data', 'data'],
-                    'all': ['slice', 'setter', 'indexer', 'set_flow']}[form]
+                    'all': ['slice', 'setter', 'indexer', 'set_flow', 'set_property']}[form]
         else:
             accs = {'item': ['indexer', 'set_flow', 'set_data'], 'some': ['indexer', 'set_flow'],
                     'all': ['indexer', 'set_flow']}[form]
         acc = ch.choice('access', accs)
-        uses_unit = acc in ('set_flow', 'set_data')
+        uses_unit = acc in ('set_flow', 'set_data', 'set_property')
         if not uses_unit:
             unit = {'mol': 'kmol/hr', 'mass': 'kg/hr', 'vol': 'm3/hr'}[view]; f = 1.0
         region = f'kind={"sub" if sub else sm.kind},view={view},form={form},acc={acc}'
@@ -371,6 +371,8 @@ class Run:
                 def w(): obj.set_flow(data, unit, key1)
             elif acc == 'set_data':
                 def w(): ind.set_data(data, unit, key1)
+            elif acc == 'set_property':
+                def w(): obj.set_property(view, data, unit)
             elif acc == 'slice':
                 vec = getattr(obj, view)
                 def w(): vec[:] = data
@@ -409,6 +411,8 @@ class Run:
                     return a[0] if form == 'item' else a
                 if acc == 'set_data':
                     return getattr(obj, 'i' + view).get_data(u, k)
+                if acc == 'set_property':
+                    return obj.get_property(view, u)
                 return obj.get_flow(u, k)
             k = p if form == 'all' else (p, key1)
             if acc == 'set_data':
@@ -440,8 +444,8 @@ class Run:
             else:
                 sub = True; sm.subs.create(sm, p)
         obj = real[p] if sub else real
-        which = ch.choice('which', ['F_mol', 'F_mass', 'F_vol', 'set_total_flow'])
-        if which == 'set_total_flow':
+        which = ch.choice('which', ['F_mol', 'F_mass', 'F_vol', 'set_total_flow', 'set_property'])
+        if which in ('set_total_flow', 'set_property'):
             unit = ch.choice('unit', M.ALL_UNITS)
             dim = M.UNIT_DIM[unit]
         else:
@@ -466,6 +470,7 @@ class Run:
         ctx.cell('op:total'); ctx.cell('total:' + which)
         def call():
             if which == 'set_total_flow': obj.set_total_flow(w, unit)
+            elif which == 'set_property': obj.set_property('F_' + dim, w, unit)
             else: setattr(obj, which, w)
         if cur == 0:
             try:
@@ -485,7 +490,10 @@ class Run:
             if np.any(np.abs(got - want) > RT * np.maximum(np.abs(got), np.abs(want))):
                 ctx.fail(f'view.F_vol|kind={kind},trig=proxy-propcache|mismatch', f'{name}: {which}={w!r} {unit} rescaled with a wrong current F_vol')
         tr = self.trig(name, sm, 'F_' + dim, sub)
-        got = ctx.call('op.total.readback', obj.get_total_flow, unit, region=region)
+        if which == 'set_property':
+            got = ctx.call('op.total.readback', obj.get_property, 'F_' + dim, unit, region=region)
+        else:
+            got = ctx.call('op.total.readback', obj.get_total_flow, unit, region=region)
         if abs(got - w) > RT * max(abs(w), abs(got)):
             ctx.fail(f'roundtrip.F_{dim}|kind={kind},trig={tr}|mismatch', f'{name}: set total {w!r} {unit} via {which}, read {got!r}')
         self.hist.append(['total', kind, which, dim])
@@ -828,6 +836,121 @@ class Run:
             self.touch(sm, [i for i in idx if sm.kind == 'S' and sm.rows()[0][i]])
         ctx.cell('op:read_key'); self.hist.append(['read', sm.kind, view, form, acc, scope])
 
+    def op_get_property(self, step):
+        """documented unit-converting reader: a pure read (result == model * factor, stream unchanged afterwards)"""
+        ch, ctx = self.ch, self.ctx
+        name = self.pick('target'); real, sm = self.get(name)
+        sub = False; p = None
+        if sm.kind == 'M' and name in ('a', 'b') and ch.bool('via_sub'):
+            p = ch.choice('phase', sm.labels())
+            if sm.subs.state(sm, p) == 'stale':
+                ctx.cell('avoided:stale-sub-stream(C12)')
+            else:
+                sub = True; sm.subs.create(sm, p)
+        obj = real[p] if sub else real
+        prop = ch.choice('name', ['mol', 'mass', 'vol', 'F_mol', 'F_mass', 'F_vol'])
+        dim = prop[2:] if prop.startswith('F_') else prop
+        unit = ch.choice('unit', [None] + list(M.UNITS[dim]))
+        f = 1.0 if unit is None else M.UNIT_FACTOR[unit]
+        kind = 'sub' if sub else sm.kind
+        region = f'kind={kind},name={prop},base-unit={int(f == 1.0)}'
+        before = vs.dense(real).copy()
+        got = ctx.call('read.get_property', obj.get_property, prop, unit, region=region)
+        rows = sm.view_rows(dim)
+        if sub: rows = [rows[sm.labels().index(p)]]
+        if prop.startswith('F_'):
+            self.cmp_sum('view.' + prop, name, sm, prop, got, np.array(rows) * f, sub, what=f'get_property({prop},{unit})')
+        else:
+            self.cmp('view.' + dim, name, sm, dim, got, np.array(rows).sum(0) * f, sub, what=f'get_property({prop},{unit})')
+            if dim == 'vol' and sm.kind == 'S': self.touch(sm, [i for i, x in enumerate(sm.rows()[0]) if x])
+            if dim == 'mass' and not sub: sm.ix.cache.mass = True
+            if dim == 'vol' and not sub and sm.kind == 'M': self.touch(sm, [])
+        after = vs.dense(real)
+        if after.shape != before.shape or not np.array_equal(after, before):
+            ctx.fail(f'read.get_property|{region}|stream-modified',
+                     f'{name}: get_property({prop!r}, {unit!r}) changed the molar flows from {before.tolist()} to {after.tolist()}')
+        ctx.cell('op:get_property'); self.hist.append(['get_property', kind, prop, unit is None])
+
+    def op_assign(self, step):
+        """write a view with the live view of another stream / phase row (converted out of the source view and into
+        the target view: mass -> same molar flows on one package, vol -> mol_src * V_src / V_target)"""
+        ch, ctx = self.ch, self.ctx
+        name = self.pick('target'); real, sm = self.get(name)
+        cands = [n for n in self.names() if n != name and self.get(n)[1].ix.pkg == sm.ix.pkg
+                 and self.get(n)[1].ix.data is not sm.ix.data]
+        if not cands:
+            ctx.cell('skipped:assign-no-source-on-same-package'); return self.op_get_property(step)
+        other = ch.choice('source', cands); oreal, om = self.get(other)
+        view = ch.choice('view', ['mass', 'vol', 'vol', 'mol'])
+        pk = sm.pk
+        # source vector (live view object) and its expected content
+        if om.kind == 'M':
+            q = ch.choice('source.phase', om.labels())
+            src_via = ch.choice('source.via', ['indexer', 'sub'] if other in ('a', 'b') and om.subs.state(om, q) != 'stale' else ['indexer'])
+            if src_via == 'sub':
+                om.subs.create(om, q); svec = getattr(oreal[q], view)
+            else:
+                svec = getattr(oreal, 'i' + view)[q]
+            srow = om.view_rows(view)[om.labels().index(q)]
+            if view == 'mass' and src_via == 'indexer': om.ix.cache.mass = True
+            if view == 'vol' and src_via == 'indexer': self.touch(om, [])
+        else:
+            q = om.ix.ph.label; src_via = 'stream'
+            svec = getattr(oreal, view)
+            srow = om.view_rows(view)[0]
+            if view == 'mass': om.ix.cache.mass = True
+            if view == 'vol': self.touch(om, [i for i, x in enumerate(om.rows()[0]) if x])
+        # target
+        sub = False
+        if sm.kind == 'M':
+            p = ch.choice('phase', sm.labels())
+            if name in ('a', 'b') and ch.bool('via_sub'):
+                if sm.subs.state(sm, p) == 'stale': ctx.cell('avoided:stale-sub-stream(C12)')
+                else: sub = True; sm.subs.create(sm, p)
+            obj = real[p] if sub else real
+        else:
+            p = sm.ix.ph.label; obj = real
+        single = sub or sm.kind == 'S'
+        form = ch.choice('form', ['setter', 'slice', 'indexer', 'keyed'] if single else ['indexer', 'keyed'])
+        idx = list(range(pk.n))
+        if form == 'keyed':
+            idx = sorted(ch.subset('chems', list(range(pk.n)), min_size=1, max_size=min(3, pk.n)))
+        IDs = tuple(pk.names[i] for i in idx)
+        kind = 'sub' if sub else sm.kind
+        same_cond = (om.tc.T == sm.tc.T and om.tc.P == sm.tc.P and fam(q) == fam(p))
+        region = f'kind={kind},view={view},form={form},src={om.kind}:{src_via},same-conditions={int(same_cond)}'
+        def w():
+            if form == 'setter': setattr(obj, view, svec)
+            elif form == 'slice': getattr(obj, view)[:] = svec
+            elif form == 'indexer':
+                if single: getattr(obj, 'i' + view)[...] = svec
+                else: getattr(obj, 'i' + view)[p] = svec
+            else:
+                vals = (getattr(oreal, 'i' + view)[(q, IDs)] if om.kind == 'M' else getattr(oreal, 'i' + view)[IDs])
+                if single: getattr(obj, 'i' + view)[IDs] = vals
+                else: getattr(obj, 'i' + view)[(p, IDs)] = vals
+        ctx.call('op.assign', w, region=region)
+        written = np.array([srow[i] for i in idx], float)
+        row = sm.row_of(p)
+        if form != 'keyed':
+            row[:] = 0.0
+        for i, v in zip(idx, written):
+            row[i] = sm.to_mol(view, p, i, v) if v else 0.0
+        if view == 'vol' and not sub:
+            self.touch(sm, [i for i, v in zip(idx, written) if v])
+        if view == 'mass' and not sub: sm.ix.cache.mass = True
+        got = arr(getattr(obj, view))[idx] if single else arr(getattr(real, 'i' + view)[p])[idx]
+        den = np.maximum(np.abs(got), np.abs(written))
+        rel = np.where(den > 0, np.abs(got - written) / np.where(den > 0, den, 1), 0.0)
+        if rel.size and rel.max() > RT:
+            k = int(np.argmax(rel))
+            ctx.fail(f'roundtrip.{view}|kind={kind},trig={self.trig(name, sm, view, sub)},assign=view,same-conditions={int(same_cond)}|mismatch',
+                     f'{name}.{view} <- {other}.{view} ({form}): wrote {written[k]!r}, reads back {got[k]!r} ({pk.names[idx[k]]}; '
+                     f'target {p} T={sm.tc.T!r} P={sm.tc.P!r}, source {q} T={om.tc.T!r} P={om.tc.P!r})')
+        ctx.cell('op:assign'); ctx.cell('assign:view=' + view); ctx.cell('assign:form=' + form)
+        if not same_cond and view == 'vol': ctx.cell('assign:vol-different-conditions')
+        self.hist.append(['assign', kind, view, form, om.kind, src_via])
+
     def op_sub(self, step):
         ch, ctx = self.ch, self.ctx
         multis = [n for n in ('a', 'b') if n in self.names() and self.get(n)[1].kind == 'M']
@@ -860,7 +983,8 @@ class Run:
 
 
 OPS = [('write', 8), ('total', 3), ('T', 2), ('P', 2), ('phase', 3), ('phases', 3), ('link', 3), ('unlink', 2),
-       ('copy_like', 2), ('reset_thermo', 1), ('proxy', 2), ('empty', 1), ('dim_error', 1), ('read_key', 2), ('sub', 1)]
+       ('copy_like', 2), ('reset_thermo', 1), ('proxy', 2), ('empty', 1), ('dim_error', 1), ('read_key', 2), ('sub', 1),
+       ('get_property', 2), ('assign', 3)]
 OP_LIST = [n for n, w in OPS for _ in range(w)]
 STRUCT = {'T', 'P', 'phase', 'phases', 'link', 'unlink', 'copy_like', 'reset_thermo', 'proxy'}
 
